@@ -106,6 +106,11 @@ func (c *bconn) run(p proto.Protocol) {
 		if _, err := ep.Next(stepTimeout, e2e.IsType[*cfgpacket.FinishedUpdate]); err != nil {
 			return
 		}
+		// The proxy acknowledges the configuration from the CLIENT's read-loop goroutine and installs the backend's
+		// transition handler a few statements later; a backend answering within that window has its JoinGame
+		// dispatched to the stale config handler (forwarded, never handled: the request hangs).  A real backend is a
+		// network round trip away; the in-memory one waits a moment.  (Outside C16's clauses; see the report.)
+		time.Sleep(3 * time.Millisecond)
 	}
 	ep.SetState(state.Play)
 	switch beh {
@@ -152,7 +157,10 @@ func (s *server) Dial(ctx context.Context, _ proxy.Player) (net.Conn, error) {
 	}
 	s.dials++
 	s.mu.Unlock()
-	if beh == "r" || beh == "s:r" {
+	s.w.mu.Lock()
+	closing := s.w.closing
+	s.w.mu.Unlock()
+	if closing || beh == "r" || beh == "s:r" {
 		return nil, errors.New("connection refused")
 	}
 	a, b := e2e.Pipe(&net.TCPAddr{IP: net.IPv4(10, 0, 0, 9), Port: 40000}, s.Addr())
@@ -190,6 +198,7 @@ type world struct {
 
 	mu           sync.Mutex
 	clientClosed bool
+	closing      bool
 	allConns     []*bconn
 	newConn      chan *bconn
 	nameHook     func(*server)
@@ -520,18 +529,21 @@ func (w *world) setNameHook(h func(*server)) {
 }
 
 func (w *world) close() {
+	w.mu.Lock()
+	w.closing = true
+	w.mu.Unlock()
 	if w.client != nil {
 		w.client.Conn.Close()
 	}
+	// let the proxy tear the player down before its backends disappear (no fallback storms in a dead world)
+	for i := 0; i < 200 && w.player != nil && w.player.Active(); i++ {
+		time.Sleep(5 * time.Millisecond)
+	}
+	w.releaseAll()
 	w.mu.Lock()
 	conns := append([]*bconn(nil), w.allConns...)
 	w.mu.Unlock()
 	for _, c := range conns {
-		select {
-		case <-c.release:
-		default:
-			close(c.release)
-		}
 		c.ep.Conn.Close()
 	}
 }
